@@ -1,5 +1,4 @@
 import BU.Properties.C11
-import BU.Properties.C11_Detect
 #print axioms C11.consts_tie
 #print axioms C11.segwit_prefixes
 #print axioms C11.hrp_cases
@@ -9,5 +8,3 @@ import BU.Properties.C11_Detect
 #print axioms C11.accept_sound
 #print axioms C11.predicate_valid
 #print axioms C11.predicate_rejects
-#print axioms C11.polymod_xor
-#print axioms C11.detects_up_to_two
